@@ -230,7 +230,7 @@ struct H : Host
 };
 extern "C" int w_line(char* line, int lineNumber, const unsigned char* mb, const unsigned char* mi, const unsigned char* mr)
 {
-   VIN("len", g_len); VIN_ARR8("line", line, g_len + 1);
+   VIN("len", g_len); VIN("bufsize", (int)__CPROVER_OBJECT_SIZE(line)); VIN_ARR8("line", line, (int)__CPROVER_OBJECT_SIZE(line));
    Settings st; st.boolParam.name.kind = 0; st.intParam.name.kind = 1; st.realParam.name.kind = 2;
    H h; h._currentSettings = &st; h.spxout = 0; h.line_ = line; h.lineNumber_ = lineNumber;
    gp_line = line; gp_mb = mb; gp_mi = mi; gp_mr = mr;
